@@ -684,6 +684,14 @@ Proof.
   - destruct Hc as (-> & _). done.
 Qed.
 
+(* a restart: the window is the stored tip alone, the rest is re-read *)
+Lemma restart_Inv s : Inv s -> Inv (restart P s) /\ chain (restart P s) = chain s.
+Proof.
+  intros HI. unfold restart, chain_tip. destruct (last (chain s)) as [t|] eqn:Et; [|done].
+  destruct HI. split; [|done].
+  split; unfold tip_height; cbn [chain fchain hl nextCp ftipVar trap]; try done. by apply WM_single.
+Qed.
+
 (* ---------- operations, histories ---------- *)
 Definition wf_op (o : op) : Prop :=
   match o with
@@ -703,7 +711,7 @@ Definition StepRel (s : state) (o : op) (s' : state) : Prop :=
 Lemma step_spec s o : Inv s -> wf_op o -> zlen (chain s) + op_size o <= LIMIT ->
   Inv (step P s o) /\ StepRel s o (step P s o).
 Proof.
-  intros HI Hwf Hlim. destruct o as [p now hs|p now x|p st la full|p|prev fs stop|h]; cbn [step StepRel wf_op op_size] in *.
+  intros HI Hwf Hlim. destruct o as [p now hs|p now x|p st la full|p|prev fs stop|h|]; cbn [step StepRel wf_op op_size] in *.
   - destruct Hwf as (HT & HUs & Hlen). by apply handle_headers_spec.
   - split; [eapply Inv_core; [done|apply core_eq_handle_inv]|apply (core_eq_handle_inv now p x s)].
   - split; [eapply Inv_core; [done|]|].
@@ -712,6 +720,7 @@ Proof.
   - by apply done_peer_Inv.
   - by apply write_cf_Inv.
   - done.
+  - by apply restart_Inv.
 Qed.
 
 Lemma upto_cp_len hs : forall base, zlen (upto_cp base hs) <= zlen hs.
